@@ -372,6 +372,9 @@ def stepHist (w : World) (ws : List String) : Option (World × String) :=
     else
       let c := consumeList pat m.iterElements
       pure (w', "ok " ++ showList (fun (p : Nat × String) => s!"{p.1}:{p.2}") c)
+  | "oracle" :: _ => do
+    -- a scenario checked by the harness's own oracle only (no model counterpart): the line is echoed as ok
+    pure (w, "ok")
   | ["iteradapt", r, variant, adaptor] => do
     -- element iterators consumed through ONE iterator adaptor (an iterator type may override
     -- nth / nth_back / fold-based methods); "into*" variants consume the matrix
